@@ -71,6 +71,9 @@ func (s *State) evalIndexAssigment(which ast.Node, index, value object.Object) o
 		return s.NewError("identifier not found: " + id.Literal())
 	}
 	val = object.Value(val) // deref.
+	// Store values, not live registers/references (a loop variable used as key or value).
+	index = object.Value(index)
+	value = object.Value(value)
 	switch val.Type() {
 	case object.ARRAY:
 		idx, ok := Int64Value(index)
